@@ -30,6 +30,8 @@ def gen_case(rng, k):
                 out.append(["add"] if rng.random() < 0.5 else ["delete", rng.randint(0, 9)] if rng.random() < 0.6 else ["swap", rng.randint(0, 9)])
             elif drv in ("isobaric", "isotension") and r < 0.45:
                 out.append(["cell", rng.choice([1.01, 0.99, 1.02])])
+                if random.Random(len(out) * 31 + k).random() < 0.35:
+                    out[-1][1] = [1.000004, 0.9999998, 1.0000000625][len(out) % 3]      # a fine-tuning strain is a change of the cell all the same
             elif r < 0.65:
                 out.append(["shift"])
             else:
@@ -42,6 +44,10 @@ def gen_case(rng, k):
     if rng.random() < 0.7 and drv != "base":
         shipped = {"gc": rng.choice(["exch", "disp"]), "isobaric": rng.choice(["cell", "disp"]), "isotension": rng.choice(["cell", "disp"])}.get(drv, "disp")
         table.append({"kind": "shipped", "shipped": shipped, "name": "shipped", "probability": 1.0})
+    r2 = random.Random(k * 2654435761 % 2 ** 31)
+    for ent in table:
+        if r2.random() < 0.25:
+            ent["criteria_kind"] = r2.choice(["len0", "boolfalse"])      # explicit criteria objects that are falsy as Python objects
     return {"driver": drv, "natoms": n, "positions": [[rng.randint(0, 60) / 8 for _ in range(3)] for _ in range(n)], "seed": rng.randint(1, 2 ** 31),
             "max_cycles": rng.choice([1, 2, 3]), "steps": rng.randint(4, 9), "verdicts": [rng.random() < 0.6 for _ in range(80)], "table": table}
 
